@@ -27,22 +27,26 @@ const (
 	FBackfillLive
 	FDump
 	FMulti
+	FDumpNoBackfill // Dump with FeedNoBackfill: nothing to deliver, ends at once
+	FMultiDump      // Dump over both collections through Bucket.StartDCPFeed: the coalesced done channel closes
 	NFeedKinds
 )
 
-var feedKindNames = []string{"live", "backfill+live", "dump", "multi-collection"}
+var feedKindNames = []string{"live", "backfill+live", "dump", "multi-collection", "dump-nobackfill", "multi-collection-dump"}
+
+func isDumpKind(k int) bool { return k == FDump || k == FDumpNoBackfill || k == FMultiDump }
 
 type lfeed struct {
-	id      int
-	kind    int
-	handle  int
-	coll    int // 0 = default (X), 1 = named (Y); multi covers both
-	term    chan bool
-	done    chan struct{}
-	mu      sync.Mutex
-	got     map[string]bool // tokens received
-	after   int             // callbacks after done was closed
-	termed  bool
+	id          int
+	kind        int
+	handle      int
+	coll        int // 0 = default (X), 1 = named (Y); multi covers both
+	term        chan bool
+	done        chan struct{}
+	mu          sync.Mutex
+	got         map[string]bool // tokens received
+	after       int             // callbacks after done was closed
+	termed      bool
 	expectEnded bool
 }
 
@@ -141,6 +145,16 @@ func (s *FeedScenario) Run(tmp string, r *rng.R) {
 			args.Scopes = map[string][]string{sgbucket.DefaultScope: {sgbucket.DefaultCollection}, collY.Scope: {collY.Collection}}
 			f.handle = 0
 			err = handles[0].StartDCPFeed(ctx, args, f.cb, nil)
+		case FDumpNoBackfill:
+			args.Dump = true
+			err = colls[f.handle][f.coll].StartDCPFeed(ctx, args, f.cb, nil)
+			f.expectEnded = true
+		case FMultiDump:
+			args.Backfill, args.Dump = 0, true
+			args.Scopes = map[string][]string{sgbucket.DefaultScope: {sgbucket.DefaultCollection}, collY.Scope: {collY.Collection}}
+			f.handle = 0
+			err = handles[0].StartDCPFeed(ctx, args, f.cb, nil)
+			f.expectEnded = true
 		}
 		if err != nil {
 			s.Report("start|"+feedKindNames[f.kind], fmt.Sprintf("cannot start %s feed: %v", feedKindNames[f.kind], err))
@@ -220,7 +234,7 @@ func (s *FeedScenario) Run(tmp string, r *rng.R) {
 			}
 			for _, f := range feeds {
 				covers := f.coll == ci || f.kind == FMulti
-				if !covers || f.kind == FDump {
+				if !covers || isDumpKind(f.kind) {
 					continue
 				}
 				ended := f.termed
@@ -281,7 +295,7 @@ func (s *FeedScenario) Run(tmp string, r *rng.R) {
 				}
 				yDropped = true
 				for _, f := range feeds {
-					if f.coll == 1 && f.kind != FMulti && !f.termed {
+					if f.coll == 1 && f.kind != FMulti && f.kind != FMultiDump && !f.termed {
 						f.termed, f.expectEnded = true, true // its collection is gone
 					}
 				}
